@@ -548,10 +548,12 @@ func vResendTickerStop(t *time.Ticker)           {}
 // id at that moment: after a takeover (cleanSession=false, same session) to the new
 // connection, never to the superseded one.
 func verifC16_ResendAfterTakeover() {
-	b := vBroker()
+	b := vC16Broker(0)
 	cA := vClient(b, "c", 4)
 	b.clients["c"] = cA
 	s := cA.session
+	s.info.CleanFlag = false
+	b.sessMgr.sessionMap.Store("c", s)
 	s.done = make(chan struct{})
 	s.pending[7] = newMsg("t/1", []byte{1}, QoS1)
 	s.pendingQueue = append(s.pendingQueue, 7)
@@ -563,6 +565,32 @@ func verifC16_ResendAfterTakeover() {
 		verifQuiesce()
 		verifAssert(len(cA.writeCh) == 1, "unacknowledged-message-retransmitted-to-the-connected-client")
 		<-cA.writeCh
+	}
+	if verifBool("takeoverWithCleanSession") {
+		// takeover with cleanSession=true through the REAL setSession: the previous session is
+		// discarded - its unacknowledged message is never delivered to the new connection
+		cB := vClient(b, "c", 4)
+		connect := packets.NewControlPacket(packets.Connect).(*packets.ConnectPacket)
+		connect.ClientIdentifier, connect.CleanSession = "c", true
+		b.Lock()
+		b.setSession(cB, connect)
+		b.clients["c"] = cB
+		b.Unlock()
+		verifAssert(cB.session != s, "clean-session-connect-gets-a-new-session")
+		go cA.close()
+		// the resend timer fires after the takeover has settled (a tick that is already due at
+		// the very moment the old session is closed may still be served by Go's select: that
+		// window is outside this harness, see DESIGN section 8)
+		verifQuiesce()
+		vResendTick <- time.Time{}
+		verifQuiesce()
+		vResendTick <- time.Time{}
+		verifQuiesce()
+		verifAssert(len(cB.writeCh) == 0, "discarded-sessions-messages-never-reach-the-new-connection")
+		verifAssert(len(cA.writeCh) == 0, "nothing-is-sent-to-the-superseded-connection")
+		verifCover("clean-session-takeover")
+		cB.session.close()
+		return
 	}
 	// takeover with cleanSession=false: the new connection continues the session
 	cB := vClient(b, "c", 4)
